@@ -220,6 +220,10 @@ example : ((latexBodyText (.opb ⟨2, [⟨[(2, 1), (1, -2)], .ge, 2⟩, ⟨[], .
     (fun t => (readLatexConstraintsText ["a".toList, "b_1".toList] t).toOption)) =
     some [⟨[(2, 1), (1, -2)], .ge, 2⟩, ⟨[], .eq, 0⟩, ⟨[(-3, 2)], .ge, -1⟩] := by decide
 
+/-- a full document exists as soon as the header has a description (otherwise `F.header['description']` is a KeyError) -/
+example : (latexDocumentText (.cnf ⟨1, [[1]]⟩) ["x".toList] [("description".toList, "a_b".toList)] false []).toOption.isSome = true ∧
+    (latexDocumentText (.cnf ⟨1, [[1]]⟩) ["x".toList] [] false []).toOption.isSome = false := by decide
+
 /-- the hypothesis on names is a real restriction: a name with a blank is several words, and the reader
 cannot find the literal -/
 example : (readLatexClausesText ["a b".toList] "\\begin{align}\n&       \\left(            {a b} \\right)\n\\end{align}".toList).toOption
